@@ -111,6 +111,21 @@ PROPS = {
         trusted_base=REDIS_TB + LIB,
         assumptions=["AMQP, Kafka and HTTP dissectors are not yet covered by this check (Redis only in this commit)"],
     ),
+    "C02": dict(
+        proof_modules=["KsVerif.Proofs.C02"],
+        families=["cost.redis", "cost.amqp", "cost.kafka", "cost.http"],
+        rule="cost.<proto>: for each dissector, well-formed halves in which one length / count / size field (RESP *N and "
+             "$N; AMQP frame, long-string, table, array, byte-array and body sizes; Kafka message size, client-id and "
+             "string lengths, array count; HTTP Content-Length, chunk size, HTTP/2 DATA and HEADERS frame lengths) is "
+             "replaced by each of 15 boundary values (0, 1, remaining-1, remaining, remaining+1, 65535, 65536, the caps "
+             "and cap+1, 30000000, INT32_MAX, -1, UINT32_MAX), each ended by a clean end of stream, by one read error, "
+             "and by a reader that fails forever; plus well-formed streams of 1..1000 (50000) messages; the real Dissect "
+             "and the later stages run under measurement (TotalAlloc, wall time) and a per-case kill timer; "
+             "bound: alloc <= 4096 n + 512 KiB, time <= 2 s + n/100 ms, no panic, returns",
+        trusted_base=REDIS_TB + ["runtime.MemStats.TotalAlloc and wall-clock time as measured in the harness process"] + LIB,
+        assumptions=["CPU time, allocator and GC are measured, not modelled; library parsers (net/http, x/net/http2) assumed linear"],
+        impl_timeout=120,
+    ),
     "C05": dict(
         proof_modules=["KsVerif.Proofs.C05"],
         families=["amqp.conv"],
